@@ -52,6 +52,9 @@ func (fr *Frame) evalCall1(s *State, call *ast.CallExpr) []*Val {
 	case *ast.FuncLit:
 		return fr.callClosure(s, &Closure{Lit: f, Frame: fr}, call)
 	case *ast.SelectorExpr:
+		if r, ok := fr.cgoCall(s, f, call); ok {
+			return r
+		}
 		if sel, ok := fr.info.Selections[f]; ok {
 			if sel.Kind() == types.MethodVal {
 				callee = sel.Obj().(*types.Func)
@@ -219,6 +222,13 @@ func (fr *Frame) evalLogChain(s *State, call *ast.CallExpr) []*Val {
 
 func (fr *Frame) havocCall(s *State, t types.Type, what string) []*Val {
 	fr.eng.havocked[what] = true
+	if fr.vc.prune {
+		// a function verified with `prune` claims a frame under a precondition that makes most of its body dead: a
+		// call without a frame contract on a live path settles the matter, and the path is not followed further
+		fr.vc.oblige(s, "frame-havoc", "false", token.NoPos, "a callee without frame contract ("+what+") is reached on a path the precondition allows; the declared frame cannot be established")
+		s.g = "false"
+		return fr.freshResults(s, t)
+	}
 	fr.havocEverything(s)
 	return fr.freshResults(s, t)
 }
@@ -268,7 +278,7 @@ func (fr *Frame) callFunc(s *State, callee *types.Func, recv *Val, args []*Val, 
 		return r
 	}
 	fi := fr.eng.funcs[callee]
-	if fi != nil && fr.depth < maxInlineDepth && !fr.onStack(fi.Key) && fi.Pkg.TypesInfo != nil {
+	if fi != nil && fr.depth < maxInlineDepth && !fr.onStack(fi.Key) && fi.Pkg.TypesInfo != nil && !fr.vc.prune {
 		fr.eng.inlined[fi.Key] = true
 		return fr.inline(s, fi, recv, args, call.Pos())
 	}
@@ -887,4 +897,60 @@ func (fr *Frame) fieldFuncCall(s *State, f *ast.SelectorExpr, sel *types.Selecti
 		cat = "(seq.++ " + strings.Join(parts, " ") + ")"
 	}
 	return []*Val{{T: fr.typeOf(call), S: fr.vc.define("hsum", "(Seq Int)", "(hash32 "+cat+")")}}, true
+}
+
+// cgoPure: C helper functions of cgo itself. They allocate or copy C/Go memory and never run Go code or touch Go
+// objects that existed before the call. (Every other C.f(...) can call back into Go and is havoc.)
+var cgoPure = map[string]bool{"CString": true, "GoString": true, "GoStringN": true, "GoBytes": true, "CBytes": true, "free": true}
+
+// cgoCall models C.f(args): the pseudo-package C is not type-checked here (no C headers in the sandbox), so its
+// values are opaque integers.
+func (fr *Frame) cgoCall(s *State, f *ast.SelectorExpr, call *ast.CallExpr) ([]*Val, bool) {
+	id, ok := f.X.(*ast.Ident)
+	if !ok || id.Name != "C" {
+		return nil, false
+	}
+	if o := fr.info.Uses[id]; o != nil {
+		if pn, isPkg := o.(*types.PkgName); !isPkg || pn.Imported().Path() != "C" {
+			return nil, false
+		}
+	}
+	for _, a := range call.Args {
+		fr.eval(s, a)
+	}
+	t := fr.typeOf(call)
+	if t == nil {
+		t = types.Typ[types.Invalid]
+	}
+	if !cgoPure[f.Sel.Name] {
+		if len(call.Args) == 1 && !isLowerCFunc(f.Sel.Name) {
+			// C.int(x), C.size_t(x): a conversion
+			return []*Val{fr.freshVal(s, t, "cconv")}, true
+		}
+		fr.imprecise(call.Pos(), "call into C")
+		return fr.havocCall(s, t, "C."+f.Sel.Name+" at "+fr.eng.posStr(call.Pos())), true
+	}
+	fr.eng.trustedUsed["model:cgo helper C."+f.Sel.Name+" (allocates/copies only; CString never returns NULL)"] = true
+	switch f.Sel.Name {
+	case "GoString", "GoStringN":
+		t = types.Typ[types.String]
+	case "GoBytes":
+		t = types.NewSlice(types.Typ[types.Uint8])
+	}
+	v := fr.freshVal(s, t, "c"+f.Sel.Name)
+	if f.Sel.Name == "CString" && fr.eng.sortOf(t) == "Int" {
+		s.assume(fmt.Sprintf("(> %s 0)", v.S))
+	}
+	return []*Val{v}, true
+}
+
+// isLowerCFunc: C type names used as conversions in this code base are int, uint, char, size_t, lua_Integer, ...;
+// everything containing an underscore followed by a verb-like name or known VM prefixes is a function.
+func isLowerCFunc(name string) bool {
+	for _, p := range []string{"lua", "vm_", "sqlite3_", "db_", "bignum_", "contract_"} {
+		if strings.HasPrefix(name, p) && name != "lua_Integer" && name != "lua_Number" {
+			return true
+		}
+	}
+	return false
 }
